@@ -937,7 +937,16 @@ pub fn run_c13_seq(rng: &mut Rng, n_ops: usize, steps_done: &mut u64) -> Result<
     }
     let original = insts.pop().unwrap();
     match ending {
-        0 => drop(original.no_verify_in_drop()),
+        0 => {
+            // switching verification off on an instance that has already lent values releases nothing
+            let original = original.no_verify_in_drop();
+            for id in chain_ids[0].iter().chain(shared_ids.iter()) {
+                if toks::drops(*id) != 0 {
+                    return Err(format!("value {id} lent by the original was dropped by no_verify_in_drop()"));
+                }
+            }
+            drop(original)
+        }
         1 => {
             let r = guarded(move || {
                 let _owned = original;
@@ -1178,7 +1187,19 @@ pub fn run_c13_series(
     if ids.iter().any(|id| toks::drops(*id) != 0) {
         return (Err("a value of the series was dropped while the mock is alive".into()), exec);
     }
-    drop(u);
+    // every stage of the series was consumed exactly once: finished by drop or by an explicit verify(), the stored
+    // values go away with the instance, each exactly once
+    if total % 2 == 0 {
+        drop(u);
+    } else if let Err(o) = guarded(move || u.no_verify_in_drop().verify()) {
+        return (Err(format!("verify() after the whole series was consumed failed: {o:?}")), exec);
+    }
+    if let Some(id) = ids.iter().find(|id| toks::drops(**id) != 1) {
+        return (
+            Err(format!("value {id} of the series has drop count {} after the instance is gone", toks::drops(*id))),
+            exec,
+        );
+    }
     (Ok(()), exec)
 }
 
@@ -1554,8 +1575,20 @@ pub fn run_child(what: &str, args: &[String], acc: &mut Acc) -> bool {
                 if index % 3 == 1 {
                     let _b2: &Bomb = u.make_ref(Bomb(Some(u.clone())));
                 }
+                if index % 4 >= 2 {
+                    // and one whose failing call happens while its thread unwinds from a user panic (a guard object
+                    // that talks to the mock in its destructor): still a mock-induced panic, still remembered
+                    let c = u.clone();
+                    let _ = guarded(move || {
+                        let _bomb = Bomb(Some(c));
+                        std::panic::panic_any(crate::universe::UserPanic("c08-unwinding"));
+                    });
+                    acc.bump("late_errors_unwinding");
+                }
                 let r = if index % 2 == 0 { guarded(move || drop(u)) } else { guarded(move || u.verify()) };
-                let ok = matches!(&r, Err(Obs::PanicString(m)) if m.contains("L::l_opt") && m.contains("No mock implementation"));
+                let want_n = 1 + usize::from(index % 3 == 1) + usize::from(index % 4 >= 2);
+                let ok = matches!(&r, Err(Obs::PanicString(m)) if m.contains("L::l_opt") && m.contains("No mock implementation")
+                    && m.matches("L::l_opt(1): No mock implementation").count() == want_n);
                 acc.bump("late_errors");
                 if !ok {
                     acc.violations += 1;
@@ -1563,7 +1596,7 @@ pub fn run_child(what: &str, args: &[String], acc: &mut Acc) -> bool {
                         let d = Discrepancy {
                             props: vec!["C08"],
                             at: "verification of an original whose lent value's destructor makes a failing call through a clone".into(),
-                            expected: "failure containing the recorded error `L::l_opt(1): No mock implementation found`".into(),
+                            expected: format!("failure containing the recorded error `L::l_opt(1): No mock implementation found` {want_n} time(s)"),
                             observed: format!("{r:?}"),
                         };
                         emit(what, seed, worker, index, &d, "make_ref(Bomb(clone)); drop / verify()", "sequential");
